@@ -477,7 +477,7 @@ def raw_node(rng, depth):
             # a `>` in the name or an identifier (a system identifier may hold it in XML): an HTML
             # parser ends the declaration there (finding C06-doctype-markup, repaired); also quotes
             evil = rng.choice(['x\'><script>alert(1)</script>', 'x"><script>alert(1)</script>', '>', 'a>b', 'p"q', "p'q\"r",
-                               '><img src=x onerror=alert(1)>'])
+                               '><img src=x onerror=alert(1)>', 'a"b', "it's", '"', "''\"", 'x" SYSTEM "y'])
             k = rng.randrange(3)
             return ('leaf', ('DT', evil if k == 0 else 'html', evil if k == 1 else rng.choice([None, '-//W3C//DTD XHTML 1.0 Strict//EN']),
                              evil if k == 2 else rng.choice([None, 'x.dtd'])))
